@@ -102,3 +102,11 @@ impl TrackerClient {
         metainfo.tracker_url().clone() + "?info_hash=" + info_hash.as_str()
     }
 }
+
+#[cfg(rdest_verif)]
+impl TrackerClient {
+    /// Verification hook: the announce URL (with `info_hash`) built for a torrent.
+    pub fn verif_create_url(metainfo: &Metainfo) -> String {
+        Self::create_url(metainfo)
+    }
+}
